@@ -29,8 +29,8 @@ ALGS = ['t0.a', 't1.b', 't2.r']
 
 
 class Checkout:
-    '''a real scratch git repository (the engine checkout) with one commit per model revision; the harness moves it with
-    its own git calls and reads HEAD back with its own git call (ground truth) -- the pipeline learns the revision only
+    '''a real scratch git repository (the engine checkout) with one commit per model revision; the harness moves it
+    (detached HEAD) and reads HEAD back from the repository itself (ground truth) -- the pipeline learns the revision only
     through the real code (dawgie.context._rev at start-up, FSM._reload at an update)'''
 
     def __init__(self, root, names):
